@@ -172,6 +172,66 @@ Example C02_decide32_concrete :
   hmc_decide32 1065353216 1073741824 3204448256 = [3212836864%Z; 0%Z].
 Proof. repeat split; vm_compute; reflexivity. Qed.
 
+(* ---- (6) the correspondence check evaluates the SAME generic model at exact rationals (numQ,
+   every operation normalised by Qred; comparison by Qle_bool).  Mapped to the reals with Q2R that
+   evaluation IS the numR model of (1)-(4) on the rational inputs, for every pair of targets that
+   commute with Q2R -- and the concrete targets of Model/HMC.v do. ---- *)
+From Coq Require Import QArith Qreals.
+From MiniMcmc Require Import Proofs.Links.
+Close Scope Q_scope.
+Close Scope R_scope.
+
+Theorem C02_q_leapfrog_is_real : forall (gradQ : list Q -> list Q) (gradR : list R -> list R),
+  (forall x : list Q, map Q2R (gradQ x) = gradR (map Q2R x)) ->
+  forall (eps : Q) (L : nat) (x p : list Q),
+    let z := leapfrog numQ gradQ eps L (x, p) in
+    leapfrog numR gradR (Q2R eps) L (map Q2R x, map Q2R p) = (map Q2R (fst z), map Q2R (snd z)).
+Proof. exact q2r_leapfrog. Qed.
+
+Theorem C02_q_hamiltonian_is_real : forall (logpQ : list Q -> Q) (logpR : list R -> R),
+  (forall x : list Q, Q2R (logpQ x) = logpR (map Q2R x)) ->
+  forall z : list Q * list Q,
+    Q2R (hamiltonian numQ logpQ z) = hamiltonian numR logpR (map Q2R (fst z), map Q2R (snd z)).
+Proof. exact q2r_hamiltonian. Qed.
+
+(* the accept/reject decision agrees (Qle_bool on rationals vs <= on their images), hence the row
+   and the whole batch *)
+Theorem C02_q_step_is_real : forall (logpQ : list Q -> Q) (logpR : list R -> R)
+    (gradQ : list Q -> list Q) (gradR : list R -> list R),
+  (forall x : list Q, map Q2R (gradQ x) = gradR (map Q2R x)) ->
+  (forall x : list Q, Q2R (logpQ x) = logpR (map Q2R x)) ->
+  (forall (eps : Q) (L : nat) (x p : list Q) (lnu : Q),
+     map Q2R (hmc_row numQ logpQ gradQ eps L x p lnu)
+     = hmc_row numR logpR gradR (Q2R eps) L (map Q2R x) (map Q2R p) (Q2R lnu)) /\
+  (forall (eps : Q) (L : nat) (xs ps : list (list Q)) (lnus : list Q),
+     map (map Q2R) (hmc_step numQ logpQ gradQ eps L xs ps lnus)
+     = hmc_step numR logpR gradR (Q2R eps) L (map (map Q2R) xs) (map (map Q2R) ps) (map Q2R lnus)).
+Proof.
+  intros logpQ logpR gradQ gradR Hg Hl.
+  exact (conj (q2r_hmc_row logpQ logpR gradQ gradR Hg Hl)
+              (q2r_hmc_step logpQ logpR gradQ gradR Hg Hl)).
+Qed.
+
+(* every concrete target (log-density, gradient) meets the two hypotheses above *)
+Theorem C02_q_targets_are_real :
+  (forall (mu P : list Q) (c : Q) (x : list Q),
+     Q2R (gauss2_logp numQ mu P c x)
+       = gauss2_logp numR (map Q2R mu) (map Q2R P) (Q2R c) (map Q2R x) /\
+     map Q2R (gauss2_grad numQ mu P x) = gauss2_grad numR (map Q2R mu) (map Q2R P) (map Q2R x)) /\
+  (forall (a b : Q) (x : list Q),
+     Q2R (rosen2_logp numQ a b x) = rosen2_logp numR (Q2R a) (Q2R b) (map Q2R x) /\
+     map Q2R (rosen2_grad numQ a b x) = rosen2_grad numR (Q2R a) (Q2R b) (map Q2R x)) /\
+  (forall lam x : list Q,
+     Q2R (diag_logp numQ lam x) = diag_logp numR (map Q2R lam) (map Q2R x) /\
+     map Q2R (diag_grad numQ lam x) = diag_grad numR (map Q2R lam) (map Q2R x)) /\
+  (forall x : list Q,
+     Q2R (quartic_logp numQ x) = quartic_logp numR (map Q2R x) /\
+     map Q2R (quartic_grad numQ x) = quartic_grad numR (map Q2R x)).
+Proof.
+  exact (conj q2r_gauss2_target (conj q2r_rosen2_target (conj q2r_diag_target q2r_quartic_target))).
+Qed.
+
+
 Print Assumptions C02_impl_is_spec.
 Print Assumptions C02_either_or.
 Print Assumptions C02_either_or_R.
@@ -185,3 +245,7 @@ Print Assumptions C02_hamiltonian_flip.
 Print Assumptions C02_decision_rule.
 Print Assumptions C02_decision_nan.
 Print Assumptions C02_decision_posinf.
+Print Assumptions C02_q_leapfrog_is_real.
+Print Assumptions C02_q_hamiltonian_is_real.
+Print Assumptions C02_q_step_is_real.
+Print Assumptions C02_q_targets_are_real.
